@@ -349,8 +349,10 @@ def producer_keys(prog, fi, task, depth=0):
     """keys of the task dicts produced by `task` expression inside fi -> (set|None, description)"""
     if task is None or depth > 4:
         return None, "no task expression"
-    if isinstance(task, ast.Call) and call_name(task) in TRANSPARENT and task.args:
+    if isinstance(task, ast.Call) and call_name(task) in (TRANSPARENT | {"reversed", "sorted"}) and task.args:
         return producer_keys(prog, fi, task.args[0], depth + 1)
+    if isinstance(task, ast.Subscript):
+        return producer_keys(prog, fi, task.value, depth + 1)
     if isinstance(task, ast.Name):
         keys, found = set(), False
         for n in walk_no_nested(fi.node):
